@@ -279,7 +279,7 @@ def explore(ctx):
             ctx.violation('best-standard', why, {'kind': 'std', 'caps': caps, 'faults': faults})
         best_cases.append(('[' + '; '.join(f'({i}, ({c})%Z)' for i, c in enumerate(counts)) + ']', [1, chosen, counts[chosen]] if chosen >= 0 else [-1, -1]))
     # dependent instances (the tool removes more than asked): clamped requests, warnings before the count line
-    for n in ((4, 6) if ctx.quick() else (3, 4, 5, 6, 8, 10)):
+    for n in ((5, 8) if ctx.quick() else (3, 4, 5, 6, 8, 10, 13)):
         for k in (1, 2):
             for req in ([], [0], [n - 1], [1, n - 2]):
                 why = cascade_case(ctx, n, req, k)
@@ -289,8 +289,8 @@ def explore(ctx):
                 if why:
                     ctx.violation('clang-driving-dependent-instances', f'N={n}, every removal takes the next {k} instance(s) with it, required {req}: {why}',
                                   {'kind': 'cascade', 'n': n, 'k': k, 'req': req})
-            for _ in range(4 if ctx.quick() else 20):
-                vs = [rnd.random() < 0.6 for _ in range(12)]
+            for _ in range(12 if ctx.quick() else 60):
+                vs = [rnd.random() < rnd.choice([0.3, 0.6]) for _ in range(14)]
                 vs[0] = False
                 why = cascade_case(ctx, n, [], k, verdicts=vs)
                 ctx.evaluations += 1
